@@ -14,18 +14,22 @@ import (
 
 // Engine caches per-function flows and interprocedural summaries.
 type Engine struct {
-	m        *Model
-	ef       *effects
-	flows    map[*FuncUnit]*Flow
-	rb       map[string][]retBound
-	rbBusy   map[string]bool
-	taint    map[*types.Var]bool
-	rf       map[*types.Func][]bool
-	rfBusy   map[*types.Func]bool
-	wt       map[*types.Func]map[int]bool
-	pin      map[*types.Func]int
-	flowBusy map[*FuncUnit]bool
-	sites    map[*FuncUnit][]engSite
+	m          *Model
+	ef         *effects
+	flows      map[*FuncUnit]*Flow
+	rb         map[string][]retBound
+	rbBusy     map[string]bool
+	taint      map[*types.Var]bool
+	rf         map[*types.Func][]bool
+	flowInProg map[*FuncUnit]bool
+	degraded   int
+	rfLit      map[*FuncUnit][]bool
+	rfLitBusy  map[*FuncUnit]bool
+	rfBusy     map[*types.Func]bool
+	wt         map[*types.Func]map[int]bool
+	pin        map[*types.Func]int
+	flowBusy   map[*FuncUnit]bool
+	sites      map[*FuncUnit][]engSite
 }
 
 func newEngine(m *Model) *Engine {
@@ -87,7 +91,18 @@ func (e *Engine) flow(u *FuncUnit) *Flow {
 	if entry == nil && u.Lit == nil {
 		entry = e.callSiteEntry(u)
 	}
+	if e.flowInProg == nil {
+		e.flowInProg = map[*FuncUnit]bool{}
+	}
+	e.flowInProg[u] = true
+	degradedBefore := e.degraded
 	f := newFlowP(e, u, entry)
+	delete(e.flowInProg, u)
+	if e.degraded != degradedBefore {
+		// a summary this flow asked for was cut short by a cycle (the callee's own flow is being
+		// computed further up): the result is sound but weaker than it can be – not kept
+		return f
+	}
 	if os.Getenv("ARTCHECK_DEBUG") != "" {
 		fmt.Fprintf(os.Stderr, "flow %-40s blocks=%d iters=%d ok=%v %v\n", u.Name, len(f.g.Blocks), f.iters, f.ok, time.Since(t0))
 	}
@@ -404,6 +419,15 @@ func (e *Engine) propsForUnit(u *FuncUnit, base ...string) []string {
 func (e *Engine) resultFresh(call *ast.CallExpr) []bool {
 	f := e.m.staticCallee(call)
 	if f == nil {
+		// a local closure bound once to a variable (bound := func(k K) []byte {…}): judged by its
+		// own returns like a declared helper
+		if id, ok := ast.Unparen(call.Fun).(*ast.Ident); ok {
+			if v, ok := e.m.Info.ObjectOf(id).(*types.Var); ok {
+				if lu := e.m.LitOfVar[v]; lu != nil && lu.Lit != nil {
+					return e.litResultFresh(lu)
+				}
+			}
+		}
 		return nil
 	}
 	if e.rf == nil {
@@ -413,9 +437,14 @@ func (e *Engine) resultFresh(call *ast.CallExpr) []bool {
 		return r
 	}
 	u := e.m.ByObj[f]
-	if u == nil || e.rfBusy[f] {
+	if u == nil {
 		return nil
 	}
+	if e.rfBusy[f] {
+		e.degraded++
+		return nil
+	}
+	degradedBefore := e.degraded
 	e.rfBusy[f] = true
 	defer delete(e.rfBusy, f)
 	sig, _ := f.Type().(*types.Signature)
@@ -458,7 +487,12 @@ func (e *Engine) resultFresh(call *ast.CallExpr) []bool {
 			res[i] = false
 		}
 	}
-	e.rf[f] = res
+	if os.Getenv("ARTCHECK_DEBUG") == "fresh" {
+		fmt.Fprintf(os.Stderr, "RESFRESH %s %v\n", u.Name, res)
+	}
+	if e.degraded == degradedBefore {
+		e.rf[f] = res
+	}
 	return res
 }
 
@@ -789,7 +823,7 @@ func (e *Engine) callSiteEntry(u *FuncUnit) func(fl *Flow) []*Fact {
 	idRe := regexp.MustCompile(`[A-Za-z_][A-Za-z0-9_]*#[0-9]+`)
 	var common map[string]Lin
 	for _, s := range sites {
-		if s.u == u || e.flowBusy[s.u] {
+		if s.u == u || e.flowBusy[s.u] || e.flowInProg[s.u] {
 			return nil
 		}
 		cfl := e.flow(s.u)
@@ -878,4 +912,65 @@ func (e *Engine) callSiteEntry(u *FuncUnit) func(fl *Flow) []*Fact {
 		}
 		return out
 	}
+}
+
+// litResultFresh: per result of a function literal, whether every return hands out memory the
+// literal allocated itself.
+func (e *Engine) litResultFresh(lu *FuncUnit) []bool {
+	if e.rfLit == nil {
+		e.rfLit, e.rfLitBusy = map[*FuncUnit][]bool{}, map[*FuncUnit]bool{}
+	}
+	if r, ok := e.rfLit[lu]; ok {
+		return r
+	}
+	if e.rfLitBusy[lu] || lu.Lit.Type.Results == nil {
+		return nil
+	}
+	e.rfLitBusy[lu] = true
+	defer delete(e.rfLitBusy, lu)
+	n := 0
+	for _, f := range lu.Lit.Type.Results.List {
+		if len(f.Names) == 0 {
+			n++
+		} else {
+			n += len(f.Names)
+		}
+	}
+	fl := e.flow(lu)
+	res := make([]bool, n)
+	for i := range res {
+		res[i] = true
+	}
+	any := false
+	for _, b := range fl.g.Blocks {
+		if !b.Live || fl.in[b.Index] == nil {
+			continue
+		}
+		for k, nd := range b.Nodes {
+			rs, ok := nd.(*ast.ReturnStmt)
+			if !ok {
+				continue
+			}
+			any = true
+			fs := fl.setBefore(b, k)
+			if len(rs.Results) != len(res) {
+				for i := range res {
+					res[i] = false
+				}
+				continue
+			}
+			for i, r := range rs.Results {
+				if !fl.freshExpr(r, fs, 0) {
+					res[i] = false
+				}
+			}
+		}
+	}
+	if !any {
+		for i := range res {
+			res[i] = false
+		}
+	}
+	e.rfLit[lu] = res
+	return res
 }
